@@ -461,3 +461,62 @@ func sweepCase(tk namedTok, lay layout, o sweepOpts) CaseResult {
 		"queries": len(atoms), "first_queries": []string{atoms[0].name, atoms[len(atoms)/2].name, atoms[len(atoms)-1].name}}
 	return res
 }
+
+// noLeafCase: bloom / regex trees without any condition leaf (And(), Or(), nested) — such a
+// query "has no bloom or regex conditions", so C24 forbids block filter region reads.
+func noLeafCase(o sweepOpts) CaseResult {
+	var res CaseResult
+	cfg := quietConfig()
+	cfg.BloomFalsePositiveRate = 0.01
+	cfg.PartitionFunc = partByShape
+	w, err := newWorld(cfg, nil)
+	if err != nil {
+		res.Findings = append(res.Findings, fnd("setup", "%v", err))
+		return res
+	}
+	defer w.Close()
+	if err := putChunks(w, alphaRows()[:60], 20); err != nil {
+		res.Findings = append(res.Findings, fnd("setup-ingest", "%v", err))
+		return res
+	}
+	si, err := indexWorld(w)
+	if err != nil {
+		res.Findings = append(res.Findings, fnd("layout-readback", "%v", err))
+		return res
+	}
+	ff, bf, err := loadFilters(w)
+	if err != nil {
+		res.Findings = append(res.Findings, fnd("layout-filters", "%v", err))
+		return res
+	}
+	iol := attachIOLog(w.Data)
+	and0, or0 := bs.And(), bs.Or()
+	nested := bs.BloomExpression{ExpressionType: bs.BloomExpressionAnd, Children: []bs.BloomExpression{{ExpressionType: bs.BloomExpressionAnd}, {ExpressionType: bs.BloomExpressionCondition}}}
+	rand0 := bs.RegexAnd()
+	qs := []*bs.Query{
+		{Bloom: &bs.BloomQuery{Expression: &and0}},
+		{Bloom: &bs.BloomQuery{Expression: &or0}},
+		{Bloom: &bs.BloomQuery{Expression: &nested}},
+		{Regex: &bs.RegexQuery{Expression: &rand0}},
+		{Bloom: &bs.BloomQuery{}, Regex: &bs.RegexQuery{}},
+		bs.NewQuery().Build(),
+	}
+	for i, q := range qs {
+		iol.reset()
+		qr := w.Query(q)
+		res.Evals++
+		res.Nontrivial++
+		name := fmt.Sprintf("[no-leaf #%d %s]", i, describeQuery(q))
+		if qr.Err != nil || qr.QueryErr != nil {
+			res.Findings = append(res.Findings, fnd("query-error", "%s: %v %v", name, qr.QueryErr, qr.Err))
+			continue
+		}
+		if o.c24 {
+			checkIO(name, iol, w, si, q, ff, bf, &res.Findings)
+		}
+		if o.c23 {
+			checkStats(name, qr, si, q, &res.Findings)
+		}
+	}
+	return res
+}
